@@ -364,6 +364,39 @@ pub fn addr_universe() -> ListUniverse {
     }
 }
 
+/// Every byte value 0..=255 substituted at every position of the baseline headers (and of a header with a
+/// trailing payload), plus the header cut right after the substituted byte.
+pub fn anybyte_universe() -> ListUniverse {
+    let mut cases = Vec::new();
+    let mut heads = baseline_headers();
+    let mut with_tail = heads[0].clone();
+    with_tail.extend_from_slice(b"\r\nGET /");
+    heads.push(with_tail);
+    for h in &heads {
+        for i in 0..h.len() {
+            for v in 0..=255u8 {
+                if v == h[i] {
+                    continue;
+                }
+                let mut c = h.clone();
+                c[i] = v;
+                cases.push(c.clone());
+                if i + 1 < h.len() && i >= 12 {
+                    c.truncate(i + 1);
+                    cases.push(c);
+                }
+            }
+        }
+    }
+    cases.sort();
+    cases.dedup();
+    ListUniverse {
+        name: "U2-anybyte".into(),
+        what: "every byte value 0..=255 substituted at every position of 6 baseline headers (whole, and cut right after the substituted byte)".into(),
+        cases,
+    }
+}
+
 pub const SIGMA2: &[u8] = &[b'\r', b'\n', 0x00, b'Q', b'P', b' ', 0x21, 0x11, 0x0c, 0xff, 0x01];
 
 pub fn byte_universe(d: usize) -> ByteUniverse {
@@ -466,6 +499,28 @@ pub fn tlv_structured_universe(thorough: bool) -> ListUniverse {
             two.extend_from_slice(&[k ^ 0xff, 0, 1, 9]);
             cases.push(two);
         }
+    }
+    // one item of every value length 0..=1100 and around 2^15 / 2^16 (carries in the span arithmetic), whole and cut by one
+    for l in (0usize..=1100).chain(32765..=32770).chain(65530..=65535) {
+        let mut sec = vec![0x05u8, (l >> 8) as u8, l as u8];
+        sec.extend((0..l).map(|i| (i as u8).wrapping_mul(5).wrapping_add(1)));
+        if l <= 1100 || l >= 65530 {
+            cases.push(sec[..sec.len() - 1].to_vec());
+        }
+        sec.extend_from_slice(&[4, 0, 1, 0x77]);
+        cases.push(sec[..sec.len() - 4].to_vec());
+        cases.push(sec);
+    }
+    // mid-size items followed by small ones, and many 1000-byte items (large headers rebuilt item by item)
+    for sizes in [&[40000usize, 10, 10][..], &[33000, 1, 1, 1], &[1000; 60]] {
+        let mut sec = Vec::new();
+        for (i, l) in sizes.iter().enumerate() {
+            sec.push((i % 5 + 1) as u8);
+            sec.push((l >> 8) as u8);
+            sec.push(*l as u8);
+            sec.extend((0..*l).map(|j| (j as u8).wrapping_add(i as u8)));
+        }
+        cases.push(sec);
     }
     // long runs of items (counters, recursion, quadratic behaviour): N items with 0- or 1-byte values
     for n in [254usize, 255, 256, 257, 258, 300, 512, 1000, 4096] {
